@@ -644,9 +644,13 @@ def race_suite(v, prop, op, tier, seed):
 def check_C03(v, tier, seed):
     runs = root_runs("C03", tier, seed, "mutating", 1500, 30000)
     concrete = run_oracle_cases(v, runs, oracle_outside_untouched, "a mutating operation changed something outside the root")
+    # every call of a mutating operation names one no-follow component below a descriptor (what C03_*_targets prove of
+    # the model): a call that does not is the concrete way out of the root for an attacker who swaps the entry
+    ncalls, _ = disc_oracle(v, runs, concrete)
     broken = generic_tie(v, runs, concrete)
     cov = coverage_of(runs)
     cov["tie_mismatches"] = broken
+    cov["calls_checked_against_Disc"] = ncalls
     strace_tie_step(v, "C03", [["root", "--ops", "mutating", "--seed", str(seed + 31), "--n", str(sizes(tier, 150, 2000))]], cov)
     return cov
 
@@ -674,9 +678,10 @@ def check_C04(v, tier, seed):
     return cov
 
 
-def check_C05(v, tier, seed):
-    runs = root_runs("C05", tier, seed, "all", 1200, 20000)
-    concrete = set()
+def disc_oracle(v, runs, concrete):
+    """the decidable call predicate Disc (Pathrs/Discipline.lean, the subject of the C05 theorems) evaluated by the
+    model driver on every recorded call: single components, dirfd-relative, no-follow (a followed open must be the
+    fd/<n> magic-link of a reopen), close-on-exec, O_NOCTTY, the fixed RESOLVE_* masks"""
     follow = 0
     ncalls = 0
     for r in runs:
@@ -694,6 +699,13 @@ def check_C05(v, tier, seed):
                 for t in d[1].split():
                     if t.startswith("follow_opens="):
                         follow += int(t.split("=")[1])
+    return ncalls, follow
+
+
+def check_C05(v, tier, seed):
+    runs = root_runs("C05", tier, seed, "all", 1200, 20000)
+    concrete = set()
+    ncalls, follow = disc_oracle(v, runs, concrete)
     broken = generic_tie(v, runs, concrete)
     cov = coverage_of(runs)
     cov["tie_mismatches"] = broken
